@@ -15,6 +15,8 @@ def jobs(tier):
     for k in range(5 if q else 20):
         js.append(Job(T, "flt-tsan", "random", workers=16, cases=2, maxtime=60 if q else 120, seed_salt=101 + k,
                       name="%s.flt-tsan.fresh%d" % (T, k)))
+    # fixed-point build under ThreadSanitizer: the fixed-point speech encoder (silk/fixed) is separate code with its own scratch buffers
+    js.append(Job(T, "fix-tsan", "random", workers=6, cases=200 if q else 3000, maxtime=90 if q else 600, seed_salt=53, name=T + ".fix-tsan.main"))
     # uninstrumented -O2 build with assertions: real parallel speed, digest oracle only
     js.append(Job(T, "flt-opt", "random", workers=6, cases=260 if q else 5000, maxtime=40 if q else 400, seed_salt=7,
                   name=T + ".flt-opt.digest"))
@@ -58,7 +60,7 @@ PROP = dict(
 
 TEXT = dict(
     technique="property-based concurrency testing: generated multi-thread workloads with generated schedule perturbation, run under ThreadSanitizer "
-              "(happens-before race detection) and compared, per thread, with a serial re-execution (digest of all packets / PCM / return codes / final ranges)",
+              "(happens-before race detection; float and fixed-point builds) and compared, per thread, with a serial re-execution (digest of all packets / PCM / return codes / final ranges)",
     level="Generated sets of 2..12 threads, each driving its own encoder, decoder, multistream pair, repacketizer or projection pair through "
           "creation, ctl changes, coding, concealment, reset and destruction, start together on a barrier (first-use paths overlap in the first case "
           "of every process) under sched_yield/spin perturbation and RTCD arch caps. Any ThreadSanitizer report is a violation; every thread must "
